@@ -1,0 +1,18 @@
+//go:build verif
+
+package sample
+
+import "github.com/cronokirby/saferith"
+
+// PaillierPrimeHook, when set, supplies the two safe Blum primes of the next Paillier key
+// instead of the (slow) random search. It exists only in builds with the `verif` tag and is
+// used by verification harnesses to run key generation many times from a fixture of primes.
+var PaillierPrimeHook func() (p, q *saferith.Nat)
+
+func paillierPrimeHook() (p, q *saferith.Nat, ok bool) {
+	if PaillierPrimeHook == nil {
+		return nil, nil, false
+	}
+	p, q = PaillierPrimeHook()
+	return p, q, p != nil && q != nil
+}
